@@ -66,6 +66,10 @@ package nsqd
 //@   ensures[text-rejected] result1 != nil && getTopicCalls != old(getTopicCalls) && putCalls == old(putCalls) && !jBinaryMode(gotQuery) ==>
 //@        jHttpErrT(result1, 413, "BODY_TOO_BIG") || jHttpErrT(result1, 413, "MSG_TOO_BIG") || jHttpErrT(result1, 500, "INTERNAL_ERROR")
 //@   ensures[text-500-only-on-transport-error] httpErr(result1, 500) ==> jbrErr != nil && jbrErr != io.EOF
+//   a text body is refused with MSG_TOO_BIG only for a segment that really exceeds max-msg-size - the same limit as TCP MPUB: the
+//   line just read, without its terminating newline, is longer than the limit (a newline-terminated line of exactly max-msg-size is fine)
+//@   ensures[text-msg-too-big-only-for-oversize-segment; uses opts_fixed] !jBinaryMode(gotQuery) && getTopicCalls != old(getTopicCalls) && jHttpErrT(result1, 413, "MSG_TOO_BIG") ==>
+//@        len(readLine) >= 1 && (readLine[len(readLine) - 1] == 10 ? len(readLine) - 1 : len(readLine)) > cfgMaxMsgSize()
 //@   loop 0
 //@     invariant[mode] !binaryMode && !jBinaryMode(gotQuery)
 //@     invariant[topic] topic != nil && topic == gotTopic && getTopicCalls == old(getTopicCalls) + 1 && validName(gotTopicName) && gotTopicName == gotQuery["topic"][0]
